@@ -780,7 +780,14 @@ class ModelTrainer:
         else:
             callbacks = []
 
-        if self.config.trainer_config.early_stopping.stop_training_on_plateau:
+        # `early_stopping` is optional: it may be None or absent from the config.
+        early_stopping_config = OmegaConf.select(
+            self.config, "trainer_config.early_stopping", default=None
+        )
+        if (
+            early_stopping_config is not None
+            and early_stopping_config.stop_training_on_plateau
+        ):
             callbacks.append(
                 EarlyStopping(
                     monitor="val_loss",
